@@ -74,7 +74,11 @@ func genCfg(r *vs.Rand, allowRolling bool) scfg {
 		cfg.ParentSelector = vs.M{"matchLabels": vs.M{"managed": "yes"}}
 	}
 	cfg.Finalize = r.Chance(40)
-	cfg.SSA = false
+	cfg.SSA = r.Chance(15)
+	if r.Chance(25) {
+		cfg.Customize = true
+		cfg.Related = []childSpec{{APIVersion: "v1", Resource: "secrets", Kind: "Secret", Namespaced: true}}
+	}
 	return cfg
 }
 
@@ -137,6 +141,14 @@ func hookKey(c childSpec) string {
 func scriptedHook(cfg scfg) func(name string, req map[string]interface{}) vs.HookAnswer {
 	return func(name string, req map[string]interface{}) vs.HookAnswer {
 		parent := objMap(req, "parent")
+		if name == "customize" {
+			rules := []interface{}{}
+			if rr, ok := objMap(parent, "spec")["relatedRules"].([]interface{}); ok {
+				rules = rr
+			}
+			b, _ := json.Marshal(vs.M{"relatedResources": rules})
+			return vs.HookAnswer{Code: 200, Body: b}
+		}
 		pname := objStr(parent, "metadata", "name")
 		mode := objStr(parent, "spec", "hookMode")
 		finalizing, _ := req["finalizing"].(bool)
@@ -232,6 +244,10 @@ type scenario struct {
 	Notes []string
 	w     *world
 	key   string
+	// hidden process state as it was before the sync being recorded
+	revNameBefore string
+	memoBefore    []interface{}
+	custBefore    interface{}
 }
 
 func ownerRef(parent map[string]interface{}, controller bool) vs.M {
@@ -281,6 +297,46 @@ func buildScenario(r *vs.Rand, cfg scfg) *scenario {
 		// with selector generation the children need no matching labels of their own
 		if r.Chance(50) {
 			delete(spec, "childLabels")
+		}
+	}
+	if cfg.Customize {
+		var rules []interface{}
+		nr := 1 + r.Intn(2)
+		for i := 0; i < nr; i++ {
+			rule := vs.M{"apiVersion": "v1", "resource": "secrets"}
+			switch r.Intn(7) {
+			case 0:
+				rule["labelSelector"] = vs.M{"matchLabels": vs.M{"use": "yes"}}
+			case 1:
+				rule["labelSelector"] = vs.M{}
+			case 2:
+				rule["namespace"] = "ns1"
+			case 3:
+				rule["names"] = []interface{}{"s1", "s3"}
+			case 4:
+				rule["namespace"] = r.Pick([]string{"ns1", "ns2"})
+				rule["names"] = []interface{}{"s1"}
+			case 5: // invalid mix
+				rule["labelSelector"] = vs.M{"matchLabels": vs.M{"use": "yes"}}
+				rule["names"] = []interface{}{"s1"}
+			case 6: // neither: select by (empty) labels = everything
+			}
+			rules = append(rules, rule)
+		}
+		if r.Chance(8) {
+			rules = append(rules, nil)
+		}
+		spec["relatedRules"] = rules
+		for _, rns := range []string{"ns1", "ns2"} {
+			for _, n := range []string{"s1", "s2", "s3"} {
+				if r.Chance(60) {
+					lbl := vs.M{}
+					if r.Bool() {
+						lbl["use"] = "yes"
+					}
+					w.sim.Put("", "secrets", vs.M{"apiVersion": "v1", "kind": "Secret", "metadata": vs.M{"name": n, "namespace": rns, "labels": lbl}, "data": vs.M{"k": r.Pick([]string{"a", "b"})}})
+				}
+			}
 		}
 	}
 	pmd := vs.M{"name": "p1", "labels": vs.M{}}
@@ -493,7 +549,8 @@ func (sc *scenario) traceLine(i int, seed uint64, storeBefore []map[string]inter
 	w := sc.w
 	calls := w.sim.LogCopy()
 	cacheAfter := w.cacheDump()
-	return vs.M{"kind": "sync", "ctl": "composite", "case": i, "seed": seed, "cfg": sc.Cfg, "key": sc.key, "revName": sc.revName(),
+	return vs.M{"kind": "sync", "ctl": "composite", "case": i, "seed": seed, "cfg": sc.Cfg, "key": sc.key, "revName": sc.revNameBefore,
+		"memoBefore": sc.memoBefore, "customizeCached": sc.custBefore,
 		"cache": cacheBefore, "storeBefore": storeBefore, "calls": calls, "storeAfter": w.sim.Snapshot(),
 		"result": vs.M{"outcome": outcome, "detail": detail, "queue": w.q.Ops},
 		"cacheIntact": vs.MustJSON(cacheBefore) == vs.MustJSON(cacheAfter)}
@@ -568,7 +625,11 @@ func (sc *scenario) syncOnce(i int, seed uint64) vs.M {
 	w.sim.ResetLog()
 	storeBefore := w.sim.Snapshot()
 	cacheBefore := w.cacheDump()
+	sc.revNameBefore = sc.revName()
+	sc.memoBefore = w.memoDump()
+	sc.custBefore = w.customizeCached("p1")
 	outcome, detail := w.runSync(sc.key)
+	w.noteApplies()
 	return sc.traceLine(i, seed, storeBefore, cacheBefore, outcome, detail)
 }
 
@@ -577,10 +638,9 @@ func TestVerifSync(t *testing.T) {
 	seed, n := vs.Params(500)
 	out := vs.OpenOut()
 	defer out.Close()
-	only := vs.Only()
 	rolling := os.Getenv("VERIF_ROLLING") == "1"
 	for i := 0; i < n; i++ {
-		if only >= 0 && i != only {
+		if !vs.Mine(i) {
 			continue
 		}
 		r := vs.CaseRand(seed, i)
